@@ -357,6 +357,30 @@ def gen_coeffs():
 AXN = ['x', 'y', 'z', 'a', 'b']
 GRIDN = ['xx', 'yy', 'zz', 'aa', 'bb']
 
+def _canon_names(body, ax=None):
+    """The name-pattern tables below (`kernels`, `kernelSigs`) were written against the naming convention of the C kernels (loop
+    variable ii/jj/kk/ll/mm for the axis with extent L/M/N/O/P, spacing array d<axis>, midpoints <axis>Int).  Loop variables and
+    these two work arrays are renamed to that convention first (by what they ARE: the extent in the `for` header, the output
+    position of compute_dx / compute_xInt), so that a renamed variable still gives the same tables; the statement-level
+    translation of the bodies (`kernelProgs`) does not depend on names at all."""
+    canon = {'L': 'ii', 'M': 'jj', 'N': 'kk', 'O': 'll', 'P': 'mm'}
+    ren = {}
+    for m in re.finditer(r'for\s*\(\s*(\w+)\s*=[^;]*;\s*(\w+)\s*<\s*([A-Za-z]\w*)', body):
+        v, v2, ext = m.groups()
+        if v != v2 or ext[0] not in canon: continue
+        if ren.setdefault(v, canon[ext[0]]) != canon[ext[0]]:
+            raise TranslateError('loop variable %s ranges over two axes' % v)
+    if ax is not None:
+        m = re.search(r'compute_dx\(\s*\w+\s*,\s*\w+\s*,\s*(\w+)\s*\)', body)
+        if m: ren[m.group(1)] = 'd' + AXN[ax]
+        m = re.search(r'compute_xInt\(\s*\w+\s*,\s*\w+\s*,\s*(\w+)\s*\)', body)
+        if m: ren[m.group(1)] = AXN[ax] + 'Int'
+    ren = {k: v for k, v in ren.items() if k != v}
+    if not ren: return body
+    for k in ren: body = re.sub(r'\b%s\b' % re.escape(k), '\0' + k + '\0', body)
+    for k, v in ren.items(): body = body.replace('\0' + k + '\0', v)
+    return body
+
 _KERNEL_ROLES = {}
 
 def gen_kernel_wiring():
@@ -374,6 +398,7 @@ def gen_kernel_wiring():
             if name not in cf:
                 raise TranslateError('%s not found' % name)
             args, body = cf[name]
+            body = _canon_names(body, ax)
             body1 = re.sub(r'\s+', ' ', body)
             calls = re.findall(r'(Mfirst|Mlast|MInt\[\w+\])\s*=\s*Mfunc%dD\((.*?)\);' % d, body1)
             if len(calls) != 3:
@@ -822,7 +847,7 @@ def gen_kernel_sigs():
             name = 'implicit_precalc_%dD%s' % (d, AXN[ax])
             if name not in cf or name not in pyx: raise TranslateError('%s not found' % name)
             args, body = cf[name]
-            body1 = re.sub(r'\s+', ' ', body)
+            body1 = re.sub(r'\s+', ' ', _canon_names(body))
             cpar = [a[0] for a in args]
             pn, cname, cargs, ret = pyx[name]
             if cname != name: raise TranslateError('integration_c.pyx: %s calls %s' % (name, cname))
